@@ -333,8 +333,9 @@ def truncate_basename(basename, iso_level, is_dir):
 
     # For performance reasons, we first truncate the string to the length
     # allowed.  Second, ISO9660 Levels 1, 2, and 3 require all uppercase names,
-    # so we uppercase it.
-    valid_base = basename[:maxlen].upper()
+    # so we uppercase it.  Uppercasing can make the string longer (the
+    # uppercase of 'ß' is 'SS'), so we have to truncate it again afterwards.
+    valid_base = basename[:maxlen].upper()[:maxlen]
 
     # Finally, ISO9660 requires only uppercase letters, 0-9, and underscore.
     # Translate any non-compliant characters to underscore and return that.
@@ -397,13 +398,14 @@ def mangle_file_for_iso9660(orig, iso_level):
         basename = orig[:len(orig) - len(ext) - 1]
 
         # If the extension is empty, too long (> 3), or contains any illegal
-        # characters, we treat it as part of the basename instead
-        extlen = len(ext)
+        # characters, we treat it as part of the basename instead.  Note that
+        # uppercasing can make the extension longer, so we measure afterwards.
+        tmpext = ext.upper()
+        extlen = len(tmpext)
         if extlen == 0 or extlen > 3:
             valid_ext = ''
             basename = orig
         else:
-            tmpext = ext.upper()
             valid_ext, numsub = re.subn('[^A-Z0-9_]{1}', r'_', tmpext)
             if numsub > 0:
                 valid_ext = ''
